@@ -24,6 +24,16 @@ func genTreeCase(t *rapid.T) V {
 	if oneIn(t, 31, "chainclass") {
 		return GenChain(t, cfg, 40)
 	}
+	if oneIn(t, 40, "paddedkeys") {
+		// keys that differ only in the zero padding of a digit run, side by side in one object
+		v := GenRoot(t, cfg)
+		twins := VObj(Pair{"1", VInt(1)}, Pair{"01", VStr("01")}, Pair{"row7", VList()}, Pair{"row007", VNil()}, Pair{"a.0", VBool(true)}, Pair{"a.00", VFloat(0)}, Pair{"10", VInt(10)}, Pair{"010", VInt(8)})
+		if v.K == KList {
+			v.L = append(v.L, twins)
+			return v
+		}
+		return twins
+	}
 	if oneIn(t, 400, "verydeep") {
 		// beyond any plausible depth guard of the serialiser (quick: 1001-1500 levels)
 		v := GenChain(t, cfg, 500)
